@@ -284,9 +284,15 @@ def gen_schema(d, *, max_types=8, rich_names=True, defaults=0.3, custom_scalars=
     n_enum = d.int(1, 3) if input_heavy else d.int(0, 2)
     n_scalar = d.int(*n_scalars) if custom_scalars else 0
     n_input = d.int(2, 4) if input_heavy else d.int(0, 2)
-    n_iface = d.int(0, 2)
+    n_iface = d.weighted([(2, 0), (3, 1), (4, 2), (2, 3)])
     n_obj = d.int(1, 4)
     n_union = d.int(0, 2)
+    # hierarchy mode: a guaranteed interface chain with several implementations and a union over them, so that
+    # every fragment / type-condition relation (same, sub-object, sub-interface, super, sibling) has positions
+    hierarchy = d.bool(0.35)
+    if hierarchy:
+        n_iface, n_obj, n_union = max(n_iface, 2), max(n_obj, 3), max(n_union, 1)
+        d.tag("schema.hierarchy_mode")
 
     # enums
     for _ in range(n_enum):
@@ -376,7 +382,7 @@ def gen_schema(d, *, max_types=8, rich_names=True, defaults=0.3, custom_scalars=
         impl = []
         used = set()
         fields = []
-        if i > 0 and d.bool(0.4):
+        if i > 0 and (d.bool(0.55) or (hierarchy and i == 1)):
             parent = iface_names[d.int(0, i - 1)]
             impl = [parent] + desc.interfaces[parent]["implements"]
             d.tag("schema.iface_implements_iface")
@@ -391,8 +397,10 @@ def gen_schema(d, *, max_types=8, rich_names=True, defaults=0.3, custom_scalars=
         impl = []
         used = set()
         fields = []
-        if iface_names and d.bool(0.6):
+        if iface_names and (d.bool(0.6) or hierarchy):
             chosen = d.sample(iface_names, d.int(1, min(2, len(iface_names))))
+            if hierarchy and len(iface_names) >= 2 and len(desc.objects) < 2:
+                chosen = [iface_names[1]]  # the first two objects implement the sub-interface (and through it the top)
             for c in chosen:
                 for p in [c] + desc.interfaces[c]["implements"]:
                     if p not in impl:
